@@ -217,6 +217,14 @@ def show_operand(fn, o, depth=0):
     return show_place(fn, o['pl'], depth)
 
 
+def _mut_borrowed(fn, l):
+    cache = fn.__dict__.setdefault('_mutb', {})
+    if l not in cache:
+        cache[l] = any(st['k'] == 'assign' and st['rv']['k'] in ('ref', 'rawptr') and st['rv'].get('mut') and st['rv']['pl']['l'] == l and not st['rv']['pl']['p']
+                       for blk in fn.blocks if not blk['cleanup'] for st in blk['stmts'])
+    return cache[l]
+
+
 def show_place(fn, pl, depth=0):
     c = fn.canon(pl)
     base = c['l']
@@ -239,6 +247,10 @@ def show_place(fn, pl, depth=0):
     if depth > 6:
         return '_' + proj
     sd = fn.single_def(base)
+    if sd and fn.locals[base]['name'] and _mut_borrowed(fn, base):
+        # a named variable that is handed out by `&mut` (to a closure, a callee) can change without another assignment
+        # in this body: it is a variable, not the value of its initialiser
+        return 'var:%s%s' % (fn.locals[base]['ty'], proj)
     if not sd:
         ds = fn.defs().get(base, [])
         # matches!()/&&/|| temporaries: several constant bool assignments, one per arm
